@@ -548,12 +548,22 @@ class Family:
         fn = self.ci.methods.get("sensors")
         if fn is None:
             raise AnalysisError("%s.sensors not found" % self.ci.name)
+        # attributes sensors() stores itself are a memo of its own result (their coherence is C15.R4's business): the
+        # paths that recompute are followed, a test of the memo is taken as a miss
+        memo_attrs = {a for n in ast.walk(fn.node) if isinstance(n, ast.stmt) for a, _, _ in self_store(n)}
+
+        def mentions_memo(node) -> bool:
+            return any(isinstance(x, ast.Attribute) and isinstance(x.value, ast.Name) and x.value.id == "self" and x.attr in memo_attrs for x in ast.walk(node))
         res = None
         for p in enumerate_paths(self.prog, fn):
             loc: Dict[str, Any] = {"resp": {}, "mapped": [], "choices": [], "pending": None}
+            memo: Dict[str, Any] = {}
             ok = True
+            stored_memo = False
             for ev in p.events:
                 if ev.kind == "test":
+                    if memo_attrs and mentions_memo(ev.node):
+                        continue
                     v = self._eval_test(ev.node, st, cfg, loc, fn)
                     if v is None:
                         raise AnalysisError("sensors() tests %s which is not a capability flag" % norm(ev.node))
@@ -561,16 +571,32 @@ class Family:
                         ok = False
                         break
                 elif ev.kind == "stmt":
-                    self._exec_stmt(ev.node, st.copy(), cfg, loc, fn)
-            if not ok:
+                    node = ev.node
+                    if memo_attrs and isinstance(node, ast.Assign) and any(a in memo_attrs for a, _, _ in self_store(node)):
+                        stored_memo = True
+                        tgts = node.targets[0]
+                        pairs = list(zip(tgts.elts, node.value.elts)) if isinstance(tgts, (ast.Tuple, ast.List)) and isinstance(node.value, (ast.Tuple, ast.List)) \
+                            and len(tgts.elts) == len(node.value.elts) else [(t, node.value) for t in node.targets]
+                        for t, v in pairs:
+                            if isinstance(t, ast.Attribute) and t.attr in memo_attrs:
+                                te = self._table_expr(v, st, loc)
+                                if te is not None:
+                                    memo[t.attr] = te
+                        continue
+                    self._exec_stmt(node, st.copy(), cfg, loc, fn)
+            if not ok or (memo_attrs and not stored_memo):
                 continue
             if p.end != "return" or p.end_node.value is None:
                 raise AnalysisError("sensors() has a path without a result")
-            te = self._table_expr(p.end_node.value, st, loc)
+            rv = p.end_node.value
+            if isinstance(rv, ast.Attribute) and isinstance(rv.value, ast.Name) and rv.value.id == "self" and rv.attr in memo:
+                te = memo[rv.attr]
+            else:
+                te = self._table_expr(rv, st, loc)
             if te is None:
                 raise AnalysisError("sensors() returns %s which is not a concatenation of tables" % norm(p.end_node.value))
-            if res is not None:
-                raise AnalysisError("sensors() has two feasible paths for one state")
+            if res is not None and [(a, tuple(r)) for a, r in res] != [(a, tuple(r)) for a, r in te]:
+                raise AnalysisError("sensors() has two feasible paths with different results for one state")
             res = te
         if res is None:
             raise AnalysisError("sensors() has no feasible path")
